@@ -34,15 +34,15 @@ Definition touched_ok (st : watched) (l : list (xds_type * option wr)) : bool :=
   forallb (fun '(t, o) => owr_eqb (st t) o) l.
 
 (* the model, started from no watches, predicts every observation *)
-Fixpoint seq_model (p : nil_policy) (st : watched) (steps : list obs_step) : bool * watched :=
+Fixpoint seq_model (st : watched) (steps : list obs_step) : bool * watched :=
   match steps with
   | [] => (true, st)
   | (o, out, touched) :: rest =>
-    let '(mout, st') := step p st o in
+    let '(mout, st') := step st o in
     if outcome_eqb mout out && touched_ok st' touched then
       match mout with
       | Crash => (is_nil rest, st')
-      | _ => seq_model p st' rest
+      | _ => seq_model st' rest
       end
     else (false, st')
   end.
@@ -53,8 +53,8 @@ Definition assoc_wr (l : list (xds_type * option wr)) (t : xds_type) : option wr
   | None => None
   end.
 
-Definition seq_ok (p : nil_policy) steps universe final : bool :=
-  let '(ok, st) := seq_model p empty_watched steps in
+Definition seq_ok steps universe final : bool :=
+  let '(ok, st) := seq_model empty_watched steps in
   ok && forallb (fun t => owr_eqb (st t) (assoc_wr final t)) universe.
 
 (* the observed state, rebuilt from the observations alone *)
@@ -75,8 +75,7 @@ Definition expect_ok (final : list (xds_type * option wr)) (expect : list (xds_t
 Definition model_ok (c : case) : bool :=
   match c with
   | Seq _ steps universe final _ =>
-    (* NilIgnore = the ErrorDetail closure guards nil; NilCrash = it does not (K14) *)
-    seq_ok NilIgnore steps universe final || seq_ok NilCrash steps universe final
+    seq_ok steps universe final
   | Table _ t w d r g s =>
     Bool.eqb (is_wildcard t) w && Bool.eqb (negb (is_nil (warming_deps t))) d &&
     Bool.eqb (requires_names_mod t) r && Bool.eqb (is_debug t) g && Bool.eqb (should_set_watched t) s
